@@ -162,9 +162,11 @@ class ParsedDocstring(abc.ABC):
         """
         try:
             document = self.to_node()
-        except NotImplementedError:
+            contents = build_table_of_content(document, depth=depth)
+        except Exception:
+            # No table of contents for docstrings that cannot be converted to nodes:
+            # like in get_summary(), the failure is reported when the docstring itself is rendered.
             return None
-        contents = build_table_of_content(document, depth=depth)
         docstring_toc = new_document('toc')
         if contents:
             docstring_toc.extend(contents)
